@@ -133,12 +133,23 @@ def run_case(c):
     req = c["req"]
     w = mw.default_world()
     p = mw.stack(w, v1=(mode == "v1"))
+    if c.get("pending"):
+        # an earlier (accepted) request hit a link failure: a reconnection is pending. A request
+        # that is NOT accepted must still cause no exchange at all - not even the reconnection
+        w.faults[w.nex] = "read"
+        r0 = p.handle_request({"command": "getPubKey", "version": 5 if mode == "v5" else 1,
+                               "keyId": mw.K_AUTH})
+        if r0.get("errorcode") not in (-905, -2):
+            raise Violation("pending-setup", repr(r0))
     mark = len(w.log)
     line = json.dumps(req)
     rep = p.handle_request(json.loads(line))
     if not isinstance(rep, dict) or type(rep.get("errorcode")) is not int:
         raise Violation("reply-shape", "request %s -> %r" % (line[:300], rep))
     apdus = w.apdus(mark)
+    if c.get("pending"):
+        # with a pending reconnection, closing / reopening the link counts as device contact too
+        apdus = apdus or [e for e in w.log[mark:] if e[0] in ("connect", "connect_fail", "close")]
     is_version = type(req) is dict and req.get("command") == "version"
     if apdus or (is_version and rep["errorcode"] == 0):
         verdict = "ACC"
@@ -146,6 +157,8 @@ def run_case(c):
         verdict = rep["errorcode"]
     al, amb = spec.allowed(json.loads(line), mode)
     labels = ["mode:" + mode, "tpl:" + c["tpl"]]
+    if c.get("pending"):
+        labels.append("reconnection-pending")
     for m in c["muts"]:
         labels.append("mut:" + m.split(":")[0])
     if amb:
@@ -172,6 +185,22 @@ def run_case(c):
 
 
 CROSS_POOL = [None, True, False, 0, 1, -1, 1.0, 1.5, "", "aa", [], {}, [1], {"a": 1}]
+
+
+class PendingSingleMutations:
+    """The single-mutation enumeration again, each request arriving while a reconnection is
+    pending after a link failure."""
+
+    def __init__(self, tier=None, seed=None):
+        self.sm = SingleMutations()
+
+    def __len__(self):
+        return len(self.sm)
+
+    def __getitem__(self, i):
+        c = dict(self.sm[i])
+        c["pending"] = True
+        return c
 
 
 class SingleMutations:
@@ -226,7 +255,7 @@ REQUIRED_LABELS = {
         "verdict:-904", "verdict:-101", "verdict:-102", "verdict:-103", "verdict:-204",
         "verdict:-205", "verdict:-301", "verdict:-2", "verdict:-666", "mut:delete",
         "mut:replace-int", "mut:replace-str", "mut:replace-list", "mut:replace-dict",
-        "mut:addkey", "ambiguous"] + ["tpl:" + n for n in TEMPLATES_V5]
+        "mut:addkey", "ambiguous", "reconnection-pending"] + ["tpl:" + n for n in TEMPLATES_V5]
     for t in ("quick", "thorough")}
 
 
@@ -242,6 +271,9 @@ def gate(tier, labels, evaluations):
 def stages(tier):
     from vlib.runner import EnumStage
     return [EnumStage("single-mutations", SingleMutations, run_case,
+                      exhaustive={"quick": True, "thorough": True},
+                      budget_s={"quick": 100, "thorough": 300}),
+            EnumStage("single-mutations-reconnection-pending", PendingSingleMutations, run_case,
                       exhaustive={"quick": True, "thorough": True},
                       budget_s={"quick": 100, "thorough": 300}),
             HypStage("classify", lambda t: cases(t), run_case,
